@@ -106,7 +106,7 @@ def denseCase : P String := do
 
 /-! ### forcing -/
 def forcingCase : P String := do
-  let ncell ← nat; let ns ← nat
+  let _L ← nat; let ncell ← nat; let ns ← nat
   let perm ← nats ns
   let mech ← mechP
   let nrx := mech.length
@@ -263,7 +263,7 @@ def showStats (s : Stats) : String :=
 def showTrace (cfg : SolverCfg Float) (tr : List (Attempt Float)) (limit : Nat) : String :=
   let aset := Pattern.rcSet cfg.la.A
   " ".intercalate ((tr.take limit).map fun a =>
-    s!"[{showF a.alpha} " ++ showFs (a.matrix.toList.flatMap fun r => fromRankOrder cfg.la.A aset r) ++ "]")
+    "[" ++ showFs (a.matrix.toList.flatMap fun r => fromRankOrder cfg.la.A aset r) ++ "]")
 
 def solveCase : P String := do
   let integ ← nat           -- 0 rosenbrock, 1 backward euler
@@ -282,7 +282,11 @@ def solveCase : P String := do
   match mkCfg ns L csc kind t with
   | .error e => pure (errStr e)
   | .ok pr =>
-    let K := matOf ncell nrx k; let Y := matOf ncell ns y
+    -- inputs are given per species `s<i>`; the state column of `s<i>` is `perm[i]`
+    let toIdx := fun (row : List Float) => ((perm.zip row).foldl (fun a pv => wr a pv.1 pv.2) (Array.replicate ns 0.0))
+    let K := matOf ncell nrx k
+    let Y : Mat Float := ((List.range ncell).map fun c => toIdx ((y.drop (c * ns)).take ns)).toArray
+    let atol := (toIdx atol).toList
     let res ← if integ == 0 then do
         let p ← rosParamsP
         pure (rosSolve floatOps floatConsts pr.cfg p K atol.toArray rtol dt Y (freshScratch pr.cfg ncell p.stages 0.0) 200000)
@@ -290,6 +294,7 @@ def solveCase : P String := do
         let p ← beParamsP
         pure (beSolve (α := Float) floatOps pr.cfg p K atol.toArray rtol dt Y (freshScratch pr.cfg ncell 1 0.0) 200000)
     let Yf := if clamp then clampNonNeg floatOps res.Y else res.Y
+    let Yf := Yf.map fun row => (perm.map fun i => rd row i).toArray
     pure s!"solve status={statusStr res.status} final={showF res.finalTime} stats={showStats res.stats} y={showMat Yf} trace={showTrace pr.cfg res.trace traceLimit}"
 
 def runLine (line : String) : String :=
